@@ -1263,7 +1263,11 @@ def eval_cancel_command(ctx, patterns=(), force=False, fail=None):
 
     def h_filter(g, pats):
         events.append(("filter_names", g is graph, tuple(pats)))
-        return list(selected)
+        # what the command gets is what filter_names really returns for these patterns - the same KIND of iterable too (a set, a list, a lazy generator)
+        try:
+            return PureInterp(ctx).call(idx.func("gwf.filtering:filter_names"), (g, tuple(pats)))
+        except (Raised, Unsupported):
+            return list(selected)
 
     def h_backend(*a, **k):
         events.append(("create_backend",))
@@ -1294,7 +1298,7 @@ def eval_cancel_command(ctx, patterns=(), force=False, fail=None):
 def cancel_command_witness(ctx):
     """C17: selection, prompt and failure independence of `gwf cancel` on a finite witness table."""
     diffs, n = [], 0
-    for patterns, force in ((("A*",), False), (("A*",), True), ((), True), ((), False)):
+    for patterns, force in ((("[AC]",), False), (("[AC]",), True), (("C", "A"), True), ((), True), ((), False)):
         out, err = eval_cancel_command(ctx, patterns, force)
         if err:
             return n, diffs, err
@@ -1307,7 +1311,7 @@ def cancel_command_witness(ctx):
         if out["raised"]:
             diffs.append(f"`{label}` ends with {out['raised']}")
             continue
-        if cancelled != want:
+        if sorted(cancelled) != want:
             diffs.append(f"`{label}`: backend.cancel called for {cancelled}, expected {want} ({'the targets filter_names selects' if patterns else 'every target of the workflow'})")
         if patterns and ("filter_names", True, tuple(patterns)) not in ev:
             diffs.append(f"`{label}`: the patterns are not resolved with filter_names(graph, patterns)")
